@@ -52,6 +52,8 @@ type repoImporter struct {
 	infos map[string]*types.Info
 	std   types.Importer
 	errs  []string
+	// third-party imports that could not be loaded (replaced by empty packages)
+	stubbed []string
 }
 
 func (ri *repoImporter) Import(path string) (*types.Package, error) {
@@ -66,8 +68,16 @@ func (ri *repoImporter) ImportFrom(path, dir string, mode types.ImportMode) (*ty
 		rel := strings.TrimPrefix(strings.TrimPrefix(path, modPath), "/")
 		return ri.load(path, filepath.Join(ri.root, rel))
 	}
-	p, err := ri.std.Import(path)
+	var p *types.Package
+	var err error
+	if from, ok := ri.std.(types.ImporterFrom); ok {
+		// resolve third-party modules relative to the repository (go list runs there)
+		p, err = from.ImportFrom(path, ri.root, 0)
+	} else {
+		p, err = ri.std.Import(path)
+	}
 	if err != nil || p == nil {
+		ri.stubbed = append(ri.stubbed, path)
 		// third-party dependency not needed for map types: stub package
 		p = types.NewPackage(path, filepath.Base(path))
 		p.MarkComplete()
@@ -101,10 +111,17 @@ func (ri *repoImporter) load(path, dir string) (*types.Package, error) {
 		Types: map[ast.Expr]types.TypeAndValue{},
 		Defs:  map[*ast.Ident]types.Object{},
 		Uses:  map[*ast.Ident]types.Object{},
+		Selections: map[*ast.SelectorExpr]*types.Selection{},
 	}
 	conf := types.Config{
 		Importer: ri,
 		Error: func(err error) {
+			// references into a stubbed third-party package are expected
+			for _, sp := range ri.stubbed {
+				if strings.Contains(err.Error(), "undefined: "+filepath.Base(sp)+".") {
+					return
+				}
+			}
 			if len(ri.errs) < 20 {
 				ri.errs = append(ri.errs, err.Error())
 			}
@@ -178,7 +195,11 @@ func runFacts(repo string) (map[string]any, error) {
 		infos: map[string]*types.Info{},
 		std:   importer.ForCompiler(fset, "source", nil),
 	}
-	var mapRanges, pkgVars, goStmts, randUses []map[string]any
+	var mapRanges, pkgVars, goStmts, randUses, guardedCalls []map[string]any
+	// methods whose map ranges are classified "unreachable": every call site is listed
+	watched := map[string]bool{"(*ssa.Program).Peephole": true, "(*ssa.Program).liveness": true,
+		"(ssa.Set).Copy": true, "(ssa.Set).Subtract": true, "(ssa.Set).Array": true,
+		"(*utils.Params).SaveSymbolIDs": true, "(*ssa.Rule).Match": true}
 	structs := map[string][]string{}
 	wantStructs := map[string]bool{"compiler.Compiler": true, "ast.Package": true, "ast.Func": true,
 		"ssa.Generator": true}
@@ -233,11 +254,41 @@ func runFacts(repo string) (map[string]any, error) {
 						continue
 					}
 					fn := funcName(d)
+					var stack []ast.Node
+					underIfFalse := func() bool {
+						for _, a := range stack {
+							if is, ok := a.(*ast.IfStmt); ok {
+								if id, ok := is.Cond.(*ast.Ident); ok && id.Name == "false" {
+									return true
+								}
+							}
+						}
+						return false
+					}
 					ast.Inspect(d.Body, func(n ast.Node) bool {
+						if n == nil {
+							stack = stack[:len(stack)-1]
+							return true
+						}
+						stack = append(stack, n)
 						switch s := n.(type) {
+						case *ast.CallExpr:
+							if se, ok := s.Fun.(*ast.SelectorExpr); ok {
+								if sel := info.Selections[se]; sel != nil && sel.Kind() == types.MethodVal {
+									key := "(" + types.TypeString(sel.Recv(), shortQual) + ")." + se.Sel.Name
+									key2 := "(*" + types.TypeString(sel.Recv(), shortQual) + ")." + se.Sel.Name
+									if watched[key] || watched[key2] {
+										if watched[key2] {
+											key = key2
+										}
+										guardedCalls = append(guardedCalls, map[string]any{"callee": key, "file": fname,
+											"func": fn, "under_if_false": underIfFalse()})
+									}
+								}
+							}
 						case *ast.RangeStmt:
 							tv, ok := info.Types[s.X]
-							if !ok || tv.Type == nil {
+							if !ok || tv.Type == nil || tv.Type == types.Typ[types.Invalid] {
 								mapRanges = append(mapRanges, map[string]any{"file": fname, "func": fn,
 									"expr": render(fset, s.X), "type": "UNTYPED", "line": fset.Position(s.Pos()).Line})
 								return true
@@ -260,6 +311,7 @@ func runFacts(repo string) (map[string]any, error) {
 									"vars": kv,
 									"body": clipS(render(fset, s.Body), 1500),
 									"next": next,
+									"under_if_false": underIfFalse(),
 									"line": fset.Position(s.Pos()).Line,
 								})
 							}
@@ -294,9 +346,10 @@ func runFacts(repo string) (map[string]any, error) {
 	sortMaps(pkgVars, "pkg", "name")
 	sortMaps(goStmts, "file", "func", "kind", "text")
 	sortMaps(randUses, "file", "import", "func")
+	sortMaps(guardedCalls, "callee", "file", "func")
 	return map[string]any{
-		"map_ranges": mapRanges, "pkg_vars": pkgVars, "go_stmts": goStmts, "rand_uses": randUses,
-		"structs": structs, "type_errors": ri.errs,
+		"map_ranges": mapRanges, "pkg_vars": pkgVars, "go_stmts": goStmts, "rand_uses": randUses, "watched_calls": guardedCalls,
+		"structs": structs, "type_errors": ri.errs, "stubbed_imports": ri.stubbed,
 	}, nil
 }
 
